@@ -81,6 +81,37 @@ theorem assign_right_assoc :
       parse T [a, op o1, b, op o2, c] =
         .ok (.bin (.prim a) (op o1) (.bin (.prim b) (op o2) (.prim c))) := by decide
 
+/-! ## all ordered triples of binary operators group as documented (35³ = 42 875 cases, kernel evaluation) -/
+
+/-- binding strength a documented level gives: tighter = smaller level number -/
+def lvl (o : String) : Nat := ((docLevel o).map (·.1)).getD 0
+def rassoc (o : String) : Bool := ((docLevel o).map (·.2)).getD false
+
+/-- does operator `x` (to the left) take its right neighbour operand before operator `y` (to the right)? -/
+def leftFirst (x y : String) : Bool := lvl x < lvl y || (lvl x == lvl y && !rassoc x)
+
+/-- the grouping docs/operators.md prescribes for `a o₁ b o₂ c o₃ d`, by case analysis on which
+    adjacent operator wins each operand (five binary tree shapes) -/
+def expectedTriple (o1 o2 o3 : String) : Tree :=
+  let A := Tree.prim a; let B := Tree.prim b; let C := Tree.prim c; let D := Tree.prim d
+  if leftFirst o1 o2 then
+    -- (a o1 b) is formed before o2 applies
+    if leftFirst o2 o3 then .bin (.bin (.bin A (op o1) B) (op o2) C) (op o3) D
+    else .bin (.bin A (op o1) B) (op o2) (.bin C (op o3) D)
+  else
+    -- o2 takes b first
+    if leftFirst o2 o3 then
+      -- (b o2 c) formed; then o1 against o3
+      if leftFirst o1 o3 then .bin (.bin A (op o1) (.bin B (op o2) C)) (op o3) D
+      else .bin A (op o1) (.bin (.bin B (op o2) C) (op o3) D)
+    else .bin A (op o1) (.bin B (op o2) (.bin C (op o3) D))
+
+set_option maxRecDepth 100000 in
+theorem triple_grouping :
+    infixRules.all (fun o1 => infixRules.all (fun o2 => infixRules.all (fun o3 =>
+      decide (parse T [a, op o1, b, op o2, c, op o3, d] = .ok (expectedTriple o1 o2 o3))))) = true := by
+  decide +kernel
+
 /-! ## prefix operators against binary and postfix operators -/
 
 /-- each prefix operator binds tighter than each binary operator: `p a o b = (p a) o b` -/
